@@ -238,7 +238,13 @@ class Search(abc.ABC):
         # Force dumping if all configurations were failed
         self.dump_jobs_done_to_csv(flush=True)
 
-        if not (os.path.exists(self._path_results)):
+        # The results of this search exist once its evaluator has written them: a file found in the
+        # directory without that was written by an other search using the same directory (only
+        # the master writes, the other ranks read what it wrote).
+        has_results = os.path.exists(self._path_results) and (
+            self._evaluator._start_dumping or not self.is_master
+        )
+        if not has_results:
             logging.warning(f"Could not find results file at {self._path_results}!")
             return None
 
